@@ -50,7 +50,7 @@ def main():
         readme = open(os.path.join(d, "README.md"), errors="replace").read()
         meta["title"] = title(readme)
         meta["needs_to_manifest"] = needs(readme)
-        meta["round"] = 1 if sid[-1] in "AB" else 2
+        meta["round"] = 1 if sid[-1] in "AB" else (2 if sid[-1] in "CD" else 3)
         notes = json.load(open(os.path.join(ROOT, "NOTES.json")))
         if sid in notes:
             meta["note"] = notes[sid]
